@@ -1,3 +1,4 @@
+import PT.Lemmas.Ipnet
 import PT.Lemmas.Bits
 /-!
 # C17 — Prefix algebra is sound for every shipped prefix type, incl. boundary lengths
@@ -109,5 +110,15 @@ theorem cidr_fromReprLen_host_zero (r : BitVec w) (l : Nat) (h : l ≤ w) (i : N
   simp only [fromReprLenMasked, BitVec.getMsbD_and, Pfx.getMsbD_maskFromLen _ _ h]
   have : ¬ i < l := by omega
   simp [this]
+
+
+/-- the `Ipv4Net` / `Ipv6Net` override of `contains` — the `ipnet` crate's range test
+`network() <= other.network() && other.broadcast() <= broadcast()` on the addresses as unsigned
+integers — is the generic bitwise containment, for every width and all host bits -/
+theorem ipnet_contains_eq (a b : Pfx w) : a.ipnetContains b = a.contains b := Pfx.ipnetContains_eq a b
+
+/-- the `Ipv4Net` / `Ipv6Net` copy of `longest_common_prefix` (XOR of the un-masked representations)
+returns the generic result: same length, same (masked) representation -/
+theorem ipnet_lcp_eq (a b : Pfx w) : a.ipnetLcp b = a.lcp b := Pfx.ipnetLcp_eq a b
 
 end PT.C17
